@@ -1,4 +1,4 @@
-// C20: bundled mocks (core / std / embedded-hal DelayNs) driven through upstream provided methods,
+// C20: bundled mocks (core / std / tokio / futures-io / embedded-hal) driven through upstream provided methods,
 // side by side with plain structs playing the same script.  One JSON line per case.
 mod prelude;
 use prelude::*;
@@ -438,6 +438,426 @@ mod asyncio {
     }
 }
 
+// ------------------------------------------------------------------ embedded-hal: digital / i2c / pwm / spi
+mod ehal {
+    use super::*;
+    use embedded_hal::digital::{self, InputPin, OutputPin, PinState, StatefulOutputPin};
+    use embedded_hal::i2c::{self, I2c};
+    use embedded_hal::pwm::{self, SetDutyCycle};
+    use embedded_hal::spi::{self, SpiBus, SpiDevice};
+    use unimock::mock::embedded_hal_1 as hm;
+
+    /// error of the plain structs (the mock's error type is Unimock itself); only Ok / Err is compared
+    #[derive(Debug)]
+    pub struct PErr;
+    impl digital::Error for PErr {
+        fn kind(&self) -> digital::ErrorKind {
+            digital::ErrorKind::Other
+        }
+    }
+    impl i2c::Error for PErr {
+        fn kind(&self) -> i2c::ErrorKind {
+            i2c::ErrorKind::Other
+        }
+    }
+    impl pwm::Error for PErr {
+        fn kind(&self) -> pwm::ErrorKind {
+            pwm::ErrorKind::Other
+        }
+    }
+    impl spi::Error for PErr {
+        fn kind(&self) -> spi::ErrorKind {
+            spi::ErrorKind::Other
+        }
+    }
+    type BScript = Arc<Mutex<VecDeque<bool>>>;
+    fn ok_step(s: &BScript) -> bool {
+        s.lock().unwrap().pop_front().unwrap_or(true)
+    }
+    fn bscript(rng: &mut Rng, n: usize) -> Vec<bool> {
+        (0..n).map(|_| rng.below(5) != 0).collect()
+    }
+    fn merr() -> Unimock {
+        Unimock::new(()).no_verify_in_drop()
+    }
+    fn shape<T: std::fmt::Debug, E>(r: &Result<T, E>) -> String {
+        match r {
+            Ok(v) => format!("Ok({v:?})"),
+            Err(_) => "Err".to_string(),
+        }
+    }
+    fn rec(log: &Log, s: String) {
+        log.lock().unwrap().push(s);
+    }
+
+    // ---- digital
+    struct PlainPin(BScript, Log, bool);
+    impl digital::ErrorType for PlainPin {
+        type Error = PErr;
+    }
+    fn pin_unit(s: &BScript, log: &Log, what: &str) -> bool {
+        rec(log, format!("{what}()"));
+        ok_step(s)
+    }
+    impl OutputPin for PlainPin {
+        fn set_low(&mut self) -> Result<(), PErr> {
+            if pin_unit(&self.0, &self.1, "set_low") { Ok(()) } else { Err(PErr) }
+        }
+        fn set_high(&mut self) -> Result<(), PErr> {
+            if pin_unit(&self.0, &self.1, "set_high") { Ok(()) } else { Err(PErr) }
+        }
+    }
+    impl StatefulOutputPin for PlainPin {
+        fn is_set_high(&mut self) -> Result<bool, PErr> {
+            if pin_unit(&self.0, &self.1, "is_set_high") { Ok(!self.2) } else { Err(PErr) }
+        }
+        fn is_set_low(&mut self) -> Result<bool, PErr> {
+            if pin_unit(&self.0, &self.1, "is_set_low") { Ok(self.2) } else { Err(PErr) }
+        }
+    }
+    fn mock_pin(s: BScript, log: Log, low: bool) -> Unimock {
+        let (s1, s2, s3, s4) = (s.clone(), s.clone(), s.clone(), s);
+        let (l1, l2, l3, l4) = (log.clone(), log.clone(), log.clone(), log);
+        mk((
+            hm::digital::OutputPinMock::set_low.each_call(matching!()).answers_arc(Arc::new(move |_| if pin_unit(&s1, &l1, "set_low") { Ok(()) } else { Err(merr()) })),
+            hm::digital::OutputPinMock::set_high.each_call(matching!()).answers_arc(Arc::new(move |_| if pin_unit(&s2, &l2, "set_high") { Ok(()) } else { Err(merr()) })),
+            hm::digital::StatefulOutputPinMock::is_set_high.each_call(matching!()).answers_arc(Arc::new(move |_| if pin_unit(&s3, &l3, "is_set_high") { Ok(!low) } else { Err(merr()) })),
+            hm::digital::StatefulOutputPinMock::is_set_low.each_call(matching!()).answers_arc(Arc::new(move |_| if pin_unit(&s4, &l4, "is_set_low") { Ok(low) } else { Err(merr()) })),
+        ))
+        .no_verify_in_drop()
+    }
+
+    // ---- pwm
+    struct PlainPwm(BScript, Log, u16);
+    impl pwm::ErrorType for PlainPwm {
+        type Error = PErr;
+    }
+    impl SetDutyCycle for PlainPwm {
+        fn max_duty_cycle(&self) -> u16 {
+            rec(&self.1, "max_duty_cycle()".into());
+            self.2
+        }
+        fn set_duty_cycle(&mut self, duty: u16) -> Result<(), PErr> {
+            rec(&self.1, format!("set_duty_cycle({duty})"));
+            if ok_step(&self.0) { Ok(()) } else { Err(PErr) }
+        }
+    }
+    fn mock_pwm(s: BScript, log: Log, max: u16) -> Unimock {
+        let (l1, l2) = (log.clone(), log);
+        mk((
+            hm::pwm::SetDutyCycleMock::max_duty_cycle.each_call(matching!()).answers_arc(Arc::new(move |_| {
+                rec(&l1, "max_duty_cycle()".into());
+                max
+            })),
+            hm::pwm::SetDutyCycleMock::set_duty_cycle.each_call(matching!(_)).answers_arc(Arc::new(move |_, duty| {
+                rec(&l2, format!("set_duty_cycle({duty})"));
+                if ok_step(&s) { Ok(()) } else { Err(merr()) }
+            })),
+        ))
+        .no_verify_in_drop()
+    }
+
+    // ---- i2c (both address modes) and spi devices (two word types): one required `transaction`
+    fn i2c_ops(s: &BScript, log: &Log, addr: String, ops: &mut [i2c::Operation<'_>]) -> bool {
+        let mut d = vec![];
+        for op in ops.iter_mut() {
+            match op {
+                i2c::Operation::Read(b) => {
+                    for (k, x) in b.iter_mut().enumerate() {
+                        *x = 0xA0 + k as u8;
+                    }
+                    d.push(format!("R{}", b.len()));
+                }
+                i2c::Operation::Write(b) => d.push(format!("W{b:?}")),
+            }
+        }
+        rec(log, format!("transaction({addr}, {d:?})"));
+        ok_step(s)
+    }
+    macro_rules! i2c_for {
+        ($plain:ident, $mock:ident, $a:ty) => {
+            struct $plain(BScript, Log);
+            impl i2c::ErrorType for $plain {
+                type Error = PErr;
+            }
+            impl I2c<$a> for $plain {
+                fn transaction(&mut self, address: $a, operations: &mut [i2c::Operation<'_>]) -> Result<(), PErr> {
+                    if i2c_ops(&self.0, &self.1, format!("{address:?}"), operations) { Ok(()) } else { Err(PErr) }
+                }
+            }
+            fn $mock(s: BScript, log: Log) -> Unimock {
+                mk(hm::i2c::I2cMock::transaction.with_types::<$a>().each_call(matching!(_, _)).answers_arc(Arc::new(move |_, address, operations| {
+                    if i2c_ops(&s, &log, format!("{address:?}"), operations) { Ok(()) } else { Err(merr()) }
+                })))
+                .no_verify_in_drop()
+            }
+        };
+    }
+    i2c_for!(PlainI2c7, mock_i2c7, u8);
+    i2c_for!(PlainI2c10, mock_i2c10, u16);
+
+    macro_rules! spi_for {
+        ($plain:ident, $mock:ident, $ops:ident, $w:ty) => {
+            fn $ops(s: &BScript, log: &Log, ops: &mut [spi::Operation<'_, $w>]) -> bool {
+                let mut d = vec![];
+                for op in ops.iter_mut() {
+                    match op {
+                        spi::Operation::Read(b) => {
+                            for (k, x) in b.iter_mut().enumerate() {
+                                *x = 0x50 + k as $w;
+                            }
+                            d.push(format!("R{}", b.len()));
+                        }
+                        spi::Operation::Write(b) => d.push(format!("W{b:?}")),
+                        spi::Operation::Transfer(r, w) => {
+                            for (k, x) in r.iter_mut().enumerate() {
+                                *x = 0x60 + k as $w;
+                            }
+                            d.push(format!("T{}:{w:?}", r.len()));
+                        }
+                        spi::Operation::TransferInPlace(b) => {
+                            d.push(format!("I{b:?}"));
+                            for x in b.iter_mut() {
+                                *x = x.wrapping_add(1);
+                            }
+                        }
+                        spi::Operation::DelayNs(n) => d.push(format!("D{n}")),
+                    }
+                }
+                rec(log, format!("transaction({d:?})"));
+                ok_step(s)
+            }
+            struct $plain(BScript, Log);
+            impl spi::ErrorType for $plain {
+                type Error = PErr;
+            }
+            impl SpiDevice<$w> for $plain {
+                fn transaction(&mut self, operations: &mut [spi::Operation<'_, $w>]) -> Result<(), PErr> {
+                    if $ops(&self.0, &self.1, operations) { Ok(()) } else { Err(PErr) }
+                }
+            }
+            fn $mock(s: BScript, log: Log) -> Unimock {
+                mk(hm::spi::SpiDeviceMock::transaction.with_types::<$w>().each_call(matching!(_)).answers_arc(Arc::new(move |_, operations| {
+                    if $ops(&s, &log, operations) { Ok(()) } else { Err(merr()) }
+                })))
+                .no_verify_in_drop()
+            }
+        };
+    }
+    spi_for!(PlainSpi8, mock_spi8, spi_ops8, u8);
+    spi_for!(PlainSpi16, mock_spi16, spi_ops16, u16);
+
+    fn bs(v: &[bool]) -> BScript {
+        Arc::new(Mutex::new(v.to_vec().into()))
+    }
+
+    pub fn differential(rng: &mut Rng, i: usize) {
+        // OutputPin::set_state, StatefulOutputPin::toggle
+        {
+            let sc = bscript(rng, 8);
+            let low = rng.below(2) == 0;
+            let (lm, lp) = (newlog(), newlog());
+            let mut m = mock_pin(bs(&sc), lm.clone(), low);
+            let mut p = PlainPin(bs(&sc), lp.clone(), low);
+            let st = if rng.below(2) == 0 { PinState::Low } else { PinState::High };
+            let rm = guarded(|| OutputPin::set_state(&mut m, st), |r| shape(&r));
+            let rp = guarded(|| p.set_state(st), |r| shape(&r));
+            diff(&format!("hal::OutputPin::set_state#{i}"), (rm, take(&lm)), (rp, take(&lp)));
+            let rm = guarded(|| (StatefulOutputPin::toggle(&mut m), StatefulOutputPin::toggle(&mut m)), |r| format!("{} {}", shape(&r.0), shape(&r.1)));
+            let rp = guarded(|| (p.toggle(), p.toggle()), |r| format!("{} {}", shape(&r.0), shape(&r.1)));
+            diff(&format!("hal::StatefulOutputPin::toggle#{i}"), (rm, take(&lm)), (rp, take(&lp)));
+        }
+        // SetDutyCycle: fully_off / fully_on / fraction / percent
+        {
+            let sc = bscript(rng, 8);
+            let max = 1 + rng.below(60_000) as u16;
+            let denom = 1 + rng.below(1000) as u16;
+            let num = rng.below(denom as u64 + 1) as u16;
+            let pct = rng.below(101) as u8;
+            let (lm, lp) = (newlog(), newlog());
+            let mut m = mock_pwm(bs(&sc), lm.clone(), max);
+            let mut p = PlainPwm(bs(&sc), lp.clone(), max);
+            let rm = guarded(|| shape(&m.set_duty_cycle_fully_off()), |s| s);
+            let rp = guarded(|| shape(&p.set_duty_cycle_fully_off()), |s| s);
+            diff(&format!("hal::SetDutyCycle::set_duty_cycle_fully_off#{i}"), (rm, take(&lm)), (rp, take(&lp)));
+            let rm = guarded(|| shape(&m.set_duty_cycle_fully_on()), |s| s);
+            let rp = guarded(|| shape(&p.set_duty_cycle_fully_on()), |s| s);
+            diff(&format!("hal::SetDutyCycle::set_duty_cycle_fully_on#{i}"), (rm, take(&lm)), (rp, take(&lp)));
+            let rm = guarded(|| shape(&m.set_duty_cycle_fraction(num, denom)), |s| s);
+            let rp = guarded(|| shape(&p.set_duty_cycle_fraction(num, denom)), |s| s);
+            diff(&format!("hal::SetDutyCycle::set_duty_cycle_fraction#{i}"), (rm, take(&lm)), (rp, take(&lp)));
+            let rm = guarded(|| shape(&m.set_duty_cycle_percent(pct)), |s| s);
+            let rp = guarded(|| shape(&p.set_duty_cycle_percent(pct)), |s| s);
+            diff(&format!("hal::SetDutyCycle::set_duty_cycle_percent#{i}"), (rm, take(&lm)), (rp, take(&lp)));
+        }
+        // I2c<SevenBitAddress> / I2c<TenBitAddress>: read / write / write_read over transaction
+        macro_rules! i2c_run {
+            ($mock:ident, $plain:ident, $addr:expr) => {{
+                let sc = bscript(rng, 4);
+                let n = rng.below(5) as usize;
+                let w: Vec<u8> = (0..rng.below(5)).map(|x| x as u8 * 3).collect();
+                let (lm, lp) = (newlog(), newlog());
+                let mut m = $mock(bs(&sc), lm.clone());
+                let mut p = $plain(bs(&sc), lp.clone());
+                let (mut b1, mut b2) = (vec![0u8; n], vec![0u8; n]);
+                let rm = guarded(|| shape(&I2c::read(&mut m, $addr, &mut b1)), |s| s);
+                let rp = guarded(|| shape(&p.read($addr, &mut b2)), |s| s);
+                diff(&format!("hal::I2c::read#{i}"), (format!("{rm} {b1:?}"), take(&lm)), (format!("{rp} {b2:?}"), take(&lp)));
+                let rm = guarded(|| shape(&I2c::write(&mut m, $addr, &w)), |s| s);
+                let rp = guarded(|| shape(&p.write($addr, &w)), |s| s);
+                diff(&format!("hal::I2c::write#{i}"), (rm, take(&lm)), (rp, take(&lp)));
+                let rm = guarded(|| shape(&I2c::write_read(&mut m, $addr, &w, &mut b1)), |s| s);
+                let rp = guarded(|| shape(&p.write_read($addr, &w, &mut b2)), |s| s);
+                diff(&format!("hal::I2c::write_read#{i}"), (format!("{rm} {b1:?}"), take(&lm)), (format!("{rp} {b2:?}"), take(&lp)));
+            }};
+        }
+        if i % 2 == 0 {
+            i2c_run!(mock_i2c7, PlainI2c7, 0x2Au8)
+        } else {
+            i2c_run!(mock_i2c10, PlainI2c10, 0x32Au16)
+        }
+        // SpiDevice<u8> / SpiDevice<u16>: read / write / transfer / transfer_in_place over transaction
+        macro_rules! spi_run {
+            ($mock:ident, $plain:ident, $w:ty) => {{
+                let sc = bscript(rng, 4);
+                let n = rng.below(5) as usize;
+                let w: Vec<$w> = (0..rng.below(5)).map(|x| x as $w * 7).collect();
+                let (lm, lp) = (newlog(), newlog());
+                let mut m = $mock(bs(&sc), lm.clone());
+                let mut p = $plain(bs(&sc), lp.clone());
+                let (mut b1, mut b2): (Vec<$w>, Vec<$w>) = (vec![0; n], vec![0; n]);
+                let rm = guarded(|| shape(&SpiDevice::<$w>::read(&mut m, &mut b1)), |s| s);
+                let rp = guarded(|| shape(&p.read(&mut b2)), |s| s);
+                diff(&format!("hal::SpiDevice::read#{i}"), (format!("{rm} {b1:?}"), take(&lm)), (format!("{rp} {b2:?}"), take(&lp)));
+                let rm = guarded(|| shape(&SpiDevice::<$w>::write(&mut m, &w)), |s| s);
+                let rp = guarded(|| shape(&p.write(&w)), |s| s);
+                diff(&format!("hal::SpiDevice::write#{i}"), (rm, take(&lm)), (rp, take(&lp)));
+                let rm = guarded(|| shape(&SpiDevice::<$w>::transfer(&mut m, &mut b1, &w)), |s| s);
+                let rp = guarded(|| shape(&p.transfer(&mut b2, &w)), |s| s);
+                diff(&format!("hal::SpiDevice::transfer#{i}"), (format!("{rm} {b1:?}"), take(&lm)), (format!("{rp} {b2:?}"), take(&lp)));
+                let rm = guarded(|| shape(&SpiDevice::<$w>::transfer_in_place(&mut m, &mut b1)), |s| s);
+                let rp = guarded(|| shape(&p.transfer_in_place(&mut b2)), |s| s);
+                diff(&format!("hal::SpiDevice::transfer_in_place#{i}"), (format!("{rm} {b1:?}"), take(&lm)), (format!("{rp} {b2:?}"), take(&lp)));
+            }};
+        }
+        if i % 2 == 0 {
+            spi_run!(mock_spi8, PlainSpi8, u8)
+        } else {
+            spi_run!(mock_spi16, PlainSpi16, u16)
+        }
+    }
+
+    pub fn wiring(wire: &dyn Fn(&str, bool, String)) {
+        // error kinds
+        let m = Unimock::new(hm::digital::ErrorMock::kind.next_call(matching!()).returns(digital::ErrorKind::Other));
+        let r = guarded(|| digital::Error::kind(&m), |k| format!("{k:?}"));
+        wire("wire:hal::DigitalError::kind", r == "Other", r);
+        let m = Unimock::new(hm::i2c::ErrorMock::kind.next_call(matching!()).returns(i2c::ErrorKind::Bus));
+        let r = guarded(|| i2c::Error::kind(&m), |k| format!("{k:?}"));
+        wire("wire:hal::I2cError::kind", r == "Bus", r);
+        let m = Unimock::new(hm::pwm::ErrorMock::kind.next_call(matching!()).returns(pwm::ErrorKind::Other));
+        let r = guarded(|| pwm::Error::kind(&m), |k| format!("{k:?}"));
+        wire("wire:hal::PwmError::kind", r == "Other", r);
+        let m = Unimock::new(hm::spi::ErrorMock::kind.next_call(matching!()).returns(spi::ErrorKind::Overrun));
+        let r = guarded(|| spi::Error::kind(&m), |k| format!("{k:?}"));
+        wire("wire:hal::SpiError::kind", r == "Overrun", r);
+        // pins
+        let mut m = Unimock::new(hm::digital::InputPinMock::is_high.next_call(matching!()).returns(Ok(true)));
+        let r = guarded(|| shape(&m.is_high()), |s| s);
+        wire("wire:hal::InputPin::is_high", r == "Ok(true)", r);
+        let mut m = Unimock::new(hm::digital::InputPinMock::is_low.next_call(matching!()).returns(Ok(false)));
+        let r = guarded(|| shape(&m.is_low()), |s| s);
+        wire("wire:hal::InputPin::is_low", r == "Ok(false)", r);
+        let mut m = Unimock::new(hm::digital::OutputPinMock::set_low.next_call(matching!()).returns(Ok(())));
+        let r = guarded(|| shape(&m.set_low()), |s| s);
+        wire("wire:hal::OutputPin::set_low", r == "Ok(())", r);
+        let mut m = Unimock::new(hm::digital::OutputPinMock::set_high.next_call(matching!()).returns(Err(Unimock::new(()))));
+        let r = guarded(|| shape(&m.set_high()), |s| s);
+        wire("wire:hal::OutputPin::set_high", r == "Err", r);
+        let mut m = Unimock::new(hm::digital::StatefulOutputPinMock::is_set_high.next_call(matching!()).returns(Ok(true)));
+        let r = guarded(|| shape(&m.is_set_high()), |s| s);
+        wire("wire:hal::StatefulOutputPin::is_set_high", r == "Ok(true)", r);
+        let mut m = Unimock::new(hm::digital::StatefulOutputPinMock::is_set_low.next_call(matching!()).returns(Ok(true)));
+        let r = guarded(|| shape(&m.is_set_low()), |s| s);
+        wire("wire:hal::StatefulOutputPin::is_set_low", r == "Ok(true)", r);
+        // pwm
+        let m = Unimock::new(hm::pwm::SetDutyCycleMock::max_duty_cycle.next_call(matching!()).returns(777u16));
+        let r = guarded(|| m.max_duty_cycle(), |v| v.to_string());
+        wire("wire:hal::SetDutyCycle::max_duty_cycle", r == "777", r);
+        let mut m = Unimock::new(hm::pwm::SetDutyCycleMock::set_duty_cycle.next_call(matching!(31)).returns(Ok(())));
+        let r = guarded(|| shape(&m.set_duty_cycle(31)), |s| s);
+        wire("wire:hal::SetDutyCycle::set_duty_cycle", r == "Ok(())", r);
+        // i2c / spi device transactions
+        let mut m = Unimock::new(hm::i2c::I2cMock::transaction.with_types::<u8>().next_call(matching!(9, _)).returns(Ok(())));
+        let r = guarded(|| shape(&I2c::transaction(&mut m, 9u8, &mut [])), |s| s);
+        wire("wire:hal::I2c::transaction", r == "Ok(())", r);
+        let mut m = Unimock::new(hm::spi::SpiDeviceMock::transaction.with_types::<u8>().next_call(matching!(_)).returns(Ok(())));
+        let r = guarded(|| shape(&SpiDevice::<u8>::transaction(&mut m, &mut [])), |s| s);
+        wire("wire:hal::SpiDevice::transaction", r == "Ok(())", r);
+        // spi bus: all required
+        let mut b = [0u8; 2];
+        let mut m = Unimock::new(hm::spi::SpiBusMock::read.with_types::<u8>().next_call(matching!(_)).answers(&|_, w| {
+            w[0] = 5;
+            Ok(())
+        }));
+        let r = guarded(|| shape(&SpiBus::<u8>::read(&mut m, &mut b)), |s| s);
+        wire("wire:hal::SpiBus::read", r == "Ok(())" && b[0] == 5, format!("{r} {b:?}"));
+        let mut m = Unimock::new(hm::spi::SpiBusMock::write.with_types::<u8>().next_call(matching!([1, 2])).returns(Ok(())));
+        let r = guarded(|| shape(&SpiBus::<u8>::write(&mut m, &[1, 2])), |s| s);
+        wire("wire:hal::SpiBus::write", r == "Ok(())", r);
+        let mut m = Unimock::new(hm::spi::SpiBusMock::transfer.with_types::<u8>().next_call(matching!(_, [3])).returns(Ok(())));
+        let r = guarded(|| shape(&SpiBus::<u8>::transfer(&mut m, &mut b, &[3])), |s| s);
+        wire("wire:hal::SpiBus::transfer", r == "Ok(())", r);
+        let mut m = Unimock::new(hm::spi::SpiBusMock::transfer_in_place.with_types::<u8>().next_call(matching!(_)).returns(Ok(())));
+        let r = guarded(|| shape(&SpiBus::<u8>::transfer_in_place(&mut m, &mut b)), |s| s);
+        wire("wire:hal::SpiBus::transfer_in_place", r == "Ok(())", r);
+        let mut m = Unimock::new(hm::spi::SpiBusMock::flush.with_types::<u8>().next_call(matching!()).returns(Ok(())));
+        let r = guarded(|| shape(&SpiBus::<u8>::flush(&mut m)), |s| s);
+        wire("wire:hal::SpiBus::flush", r == "Ok(())", r);
+    }
+}
+
+// ------------------------------------------------------------------ mirrored supertraits reached through the delegation helper
+// A user trait whose provided method formats `self`: un-mocked, its body runs on the delegation helper, whose
+// Display / Debug must be served by DisplayMock::fmt / DebugMock::fmt like those of the instance itself.
+#[unimock(api=NamedMock)]
+trait Named: std::fmt::Display + std::fmt::Debug {
+    fn id(&self) -> u32;
+    fn label(&self) -> String {
+        format!("<{}|{:?}|{:>6}|{}>", self, self, self, self.id())
+    }
+}
+struct PlainNamed(String, String, u32);
+impl std::fmt::Display for PlainNamed {
+    fn fmt(&self, f: &mut std::fmt::Formatter<'_>) -> std::fmt::Result {
+        f.pad(&self.0)
+    }
+}
+impl std::fmt::Debug for PlainNamed {
+    fn fmt(&self, f: &mut std::fmt::Formatter<'_>) -> std::fmt::Result {
+        f.pad(&self.1)
+    }
+}
+impl Named for PlainNamed {
+    fn id(&self) -> u32 {
+        self.2
+    }
+}
+fn named_diff(rng: &mut Rng, i: usize) {
+    let (d, g, id) = (format!("d{}", rng.below(100)), format!("g{}", rng.below(100)), rng.below(1000) as u32);
+    let (d2, g2) = (d.clone(), g.clone());
+    let m = mk((
+        DisplayMock::fmt.each_call(matching!(_)).answers_arc(Arc::new(move |_, f| f.pad(&d2))),
+        DebugMock::fmt.each_call(matching!(_)).answers_arc(Arc::new(move |_, f| f.pad(&g2))),
+        NamedMock::id.each_call(matching!()).returns(id),
+    ))
+    .no_verify_in_drop();
+    let p = PlainNamed(d, g, id);
+    let rm = guarded(|| format!("{} / {m} / {m:?}", m.label()), |s| s);
+    let rp = guarded(|| format!("{} / {p} / {p:?}", p.label()), |s| s);
+    diff(&format!("Display+Debug via a subtrait's provided method#{i}"), (rm, vec![]), (rp, vec![]));
+}
+
 fn main() {
     std::panic::set_hook(Box::new(|_| {}));
     let seed: u64 = std::env::var("VERIF_SEED").ok().and_then(|s| s.parse().ok()).unwrap_or(1);
@@ -447,6 +867,10 @@ fn main() {
     // ---------------- differential runs through upstream provided methods ----------------
     for i in 0..runs {
         PARTIAL.store(i % 2 == 1, std::sync::atomic::Ordering::SeqCst);
+        if i < 60 || i % 25 == 0 {
+            ehal::differential(&mut rng, i);
+            named_diff(&mut rng, i);
+        }
         // Write::write_all
         let script = gen_script(&mut rng, 6);
         let payload: Vec<u8> = (0..rng.below(12)).map(|x| x as u8).collect();
@@ -652,6 +1076,7 @@ fn main() {
         wire("wire:DelayNs::delay_ns", r == "()", r);
     }
     asyncio::run(&wire);
+    ehal::wiring(&wire);
     {
         use std::error::Error;
         // Error::source is provided: un-mocked it runs the upstream default (None) on a mock that knows nothing else
